@@ -115,3 +115,173 @@ Proof. rewrite cis_conj, Ropp_involutive. reflexivity. Qed.
 Definition CR_C (th : nat -> R) : ConjRing :=
   mkCR (PR_C th) Cconj Cconj_add Cconj_mul Cconj_opp (Cconj_R 1) Cconj_u (Cconj_R (/ 2))
        (fun k => cis_conj (atom_ang th k)) (fun k => Cconj_cis_neg (atom_ang th k)).
+
+(* ---------------------------------------------------------------------------------------------- *)
+(* (d) analytic denotation of the scalar expression language                                       *)
+Definition Cexp (z : C) : C := Cmult (RtoC (exp (Re z))) (cis (Im z)).
+
+Fixpoint cden (th : nat -> R) (e : ex) : C :=
+  match e with
+  | Num q => RtoC (Q2R q)
+  | Imag q => Cmult Ci (RtoC (Q2R q))
+  | Pi => RtoC PI
+  | Var j => RtoC (th j)
+  | Add a b => Cplus (cden th a) (cden th b)
+  | Sub a b => Cminus (cden th a) (cden th b)
+  | Mul a b => Cmult (cden th a) (cden th b)
+  | Div a b => Cdiv (cden th a) (cden th b)
+  | Neg a => Copp (cden th a)
+  | Cos a => RtoC (cos (Re (cden th a)))
+  | Sin a => RtoC (sin (Re (cden th a)))
+  | Exp a => Cexp (cden th a)
+  | Sqrt a => RtoC (sqrt (Re (cden th a)))
+  end.
+
+Ltac csolve := apply Ceq; cbn [fst snd Cmult Cplus Cminus Copp RtoC Ci Cconj cis Re Im]; ring.
+
+Lemma Q2R_m1 : Q2R (-1) = -1. Proof. unfold Q2R; simpl; lra. Qed.
+Lemma Q2R_2 : Q2R 2 = 2. Proof. unfold Q2R; simpl; lra. Qed.
+Lemma Q2R_4 : Q2R 4 = 4. Proof. unfold Q2R; simpl; lra. Qed.
+Lemma Q2R_16 : Q2R 16 = 16. Proof. unfold Q2R; simpl; lra. Qed.
+Lemma Qeqb0 q : Qeq_bool q 0 = true -> Q2R q = 0.
+Proof. intro H. rewrite (RMicromega.Qeq_true _ _ H). apply RMicromega.Q2R_0. Qed.
+
+(* --- linear forms --- *)
+Fixpoint qdot (l : list Q) (th : nat -> R) (j : nat) : R :=
+  match l with [] => 0 | q :: l' => Q2R q * th j + qdot l' th (S j) end.
+Definition lreal (th : nat -> R) (f : lin) : R :=
+  Q2R (lc f) + Q2R (lpi f) * PI + qdot (lv f) th 0 + PI * qdot (lpv f) th 0.
+Definition imunit (b : bool) : C := if b then Ci else RtoC 1.
+Definition lden (th : nat -> R) (f : lin) : C := Cmult (imunit (lim f)) (RtoC (lreal th f)).
+
+Section Lin.
+Variable tv : nat -> R.
+
+Lemma qdot_map_lin (g : Q -> Q) s : (forall q, Q2R (g q) = s * Q2R q) ->
+  forall l j, qdot (map g l) tv j = s * qdot l tv j.
+Proof. intros Hg. induction l as [|q l IH]; intro j; simpl; [ring| rewrite IH, Hg; ring]. Qed.
+
+Lemma qdot_qzip_plus a : forall b j, qdot (qzip Qplus a b) tv j = qdot a tv j + qdot b tv j.
+Proof.
+  induction a as [|x a IH]; intros b j.
+  - cbn [qzip]. rewrite (qdot_map_lin (Qplus 0) 1).
+    + simpl; ring.
+    + intro q. rewrite Q2R_plus, RMicromega.Q2R_0. ring.
+  - destruct b as [|y b].
+    + cbn [qzip]. rewrite (qdot_map_lin (fun x => (x + 0)%Q) 1).
+      * simpl; ring.
+      * intro q. rewrite Q2R_plus, RMicromega.Q2R_0. ring.
+    + cbn [qzip qdot]. rewrite IH, Q2R_plus. ring.
+Qed.
+Lemma qdot_qzip_minus a : forall b j, qdot (qzip Qminus a b) tv j = qdot a tv j - qdot b tv j.
+Proof.
+  induction a as [|x a IH]; intros b j.
+  - cbn [qzip]. rewrite (qdot_map_lin (Qminus 0) (-1)).
+    + simpl; ring.
+    + intro q. rewrite Q2R_minus, RMicromega.Q2R_0. ring.
+  - destruct b as [|y b].
+    + cbn [qzip]. rewrite (qdot_map_lin (fun x => (x - 0)%Q) 1).
+      * simpl; ring.
+      * intro q. rewrite Q2R_minus, RMicromega.Q2R_0. ring.
+    + cbn [qzip qdot]. rewrite IH, Q2R_minus. ring.
+Qed.
+Lemma qdot_scale s l j : qdot (map (Qmult s) l) tv j = Q2R s * qdot l tv j.
+Proof. apply qdot_map_lin. intro q. apply Q2R_mult. Qed.
+Lemma qdot_qunit j : forall s, qdot (qunit j) tv s = tv (s + j)%nat.
+Proof.
+  induction j as [|j IH]; intro s; simpl.
+  - rewrite RMicromega.Q2R_1, Nat.add_0_r. ring.
+  - rewrite IH, RMicromega.Q2R_0. replace (S s + j)%nat with (s + S j)%nat by lia. ring.
+Qed.
+Lemma qdot_all0 l : qall0 l = true -> forall j, qdot l tv j = 0.
+Proof.
+  unfold qall0. induction l as [|q l IH]; intros H j; simpl in *; [reflexivity|].
+  apply andb_prop in H. destruct H as [Hq Hl]. rewrite (Qeqb0 q Hq), IH by assumption. ring.
+Qed.
+
+Lemma lconst_real f : lconst f = true -> lreal tv f = Q2R (lc f).
+Proof.
+  unfold lconst, lreal. intro H. apply andb_prop in H. destruct H as [H H3]. apply andb_prop in H. destruct H as [H1 H2].
+  rewrite (Qeqb0 _ H1), !qdot_all0 by assumption. ring.
+Qed.
+Lemma lpionly_real f : lpionly f = true -> lreal tv f = Q2R (lpi f) * PI.
+Proof.
+  unfold lpionly, lreal. intro H. apply andb_prop in H. destruct H as [H H3]. apply andb_prop in H. destruct H as [H1 H2].
+  rewrite (Qeqb0 _ H1), !qdot_all0 by assumption. ring.
+Qed.
+Lemma lvaronly_real f : lvaronly f = true -> lreal tv f = qdot (lv f) tv 0.
+Proof.
+  unfold lvaronly, lreal. intro H. apply andb_prop in H. destruct H as [H H3]. apply andb_prop in H. destruct H as [H1 H2].
+  rewrite (Qeqb0 _ H1), (Qeqb0 _ H2), (qdot_all0 _ H3). ring.
+Qed.
+Lemma lreal_lscale s f : lreal tv (lscale s f) = Q2R s * lreal tv f.
+Proof. unfold lreal, lscale. cbn [lc lpi lv lpv]. rewrite !Q2R_mult, !qdot_scale. ring. Qed.
+Lemma lreal_lset_im b f : lreal tv (lset_im b f) = lreal tv f. Proof. reflexivity. Qed.
+
+Lemma imunit_mul a b :
+  Cmult (imunit a) (imunit b) = Cmult (RtoC (Q2R (if a && b then (-1)%Q else 1%Q))) (imunit (xorb a b)).
+Proof. destruct a, b; cbn [andb xorb imunit]; rewrite ?Q2R_m1, ?RMicromega.Q2R_1; csolve. Qed.
+
+Lemma lden_mul_const f g (s := if lim f && lim g then (-1)%Q else 1%Q) : lconst f = true ->
+  Cmult (lden tv f) (lden tv g) = lden tv (lset_im (xorb (lim f) (lim g)) (lscale (s * lc f) g)).
+Proof.
+  intro H. unfold lden. cbn [lim lset_im]. rewrite lreal_lset_im, lreal_lscale, (lconst_real f H), Q2R_mult.
+  transitivity (Cmult (Cmult (imunit (lim f)) (imunit (lim g))) (RtoC (Q2R (lc f) * lreal tv g))).
+  - csolve.
+  - rewrite imunit_mul. fold s. csolve.
+Qed.
+Lemma lden_mul_pivar f g (s := if lim f && lim g then (-1)%Q else 1%Q) : lpionly f = true -> lvaronly g = true ->
+  Cmult (lden tv f) (lden tv g) = lden tv (L (xorb (lim f) (lim g)) 0 0 [] (map (Qmult (s * lpi f)) (lv g))).
+Proof.
+  intros Hf Hg. unfold lden. cbn [lim]. rewrite (lpionly_real f Hf), (lvaronly_real g Hg).
+  unfold lreal at 1. cbn [lc lpi lv lpv qdot]. rewrite qdot_scale, Q2R_mult, RMicromega.Q2R_0.
+  transitivity (Cmult (Cmult (imunit (lim f)) (imunit (lim g))) (RtoC (Q2R (lpi f) * PI * qdot (lv g) tv 0))).
+  - csolve.
+  - rewrite imunit_mul. fold s. csolve.
+Qed.
+
+Theorem linof_sound e : forall f, linof e = Some f -> cden tv e = lden tv f.
+Proof.
+  induction e as [q|q| |j|a IHa b IHb|a IHa b IHb|a IHa b IHb|a IHa b IHb|a IHa|a _|a _|a _|a _];
+    intros f H; cbn [linof] in H; try discriminate.
+  - injection H as <-. unfold lden, lreal; cbn [lim lc lpi lv lpv qdot imunit cden]. rewrite RMicromega.Q2R_0. csolve.
+  - injection H as <-. unfold lden, lreal; cbn [lim lc lpi lv lpv qdot imunit cden]. rewrite RMicromega.Q2R_0. csolve.
+  - injection H as <-. unfold lden, lreal; cbn [lim lc lpi lv lpv qdot imunit cden].
+    rewrite RMicromega.Q2R_0, RMicromega.Q2R_1. csolve.
+  - injection H as <-. unfold lden, lreal; cbn [lim lc lpi lv lpv imunit cden]. rewrite qdot_qunit, Nat.add_0_l.
+    cbn [qdot]. rewrite RMicromega.Q2R_0. csolve.
+  - destruct (linof a) as [fa|]; [|discriminate]. destruct (linof b) as [fb|]; [|discriminate].
+    destruct (Bool.eqb (lim fa) (lim fb)) eqn:Eb; [|discriminate]. injection H as <-.
+    apply eqb_prop in Eb. cbn [cden]. rewrite (IHa _ eq_refl), (IHb _ eq_refl).
+    unfold lden, lreal; cbn [lim lc lpi lv lpv]. rewrite <- Eb, !Q2R_plus, !qdot_qzip_plus. csolve.
+  - destruct (linof a) as [fa|]; [|discriminate]. destruct (linof b) as [fb|]; [|discriminate].
+    destruct (Bool.eqb (lim fa) (lim fb)) eqn:Eb; [|discriminate]. injection H as <-.
+    apply eqb_prop in Eb. cbn [cden]. rewrite (IHa _ eq_refl), (IHb _ eq_refl).
+    unfold lden, lreal; cbn [lim lc lpi lv lpv]. rewrite <- Eb, !Q2R_minus, !qdot_qzip_minus. csolve.
+  - destruct (linof a) as [fa|]; [|discriminate]. destruct (linof b) as [fb|]; [|discriminate].
+    cbv zeta in H. cbn [cden]. rewrite (IHa _ eq_refl), (IHb _ eq_refl).
+    destruct (lconst fa) eqn:Ca.
+    { injection H as <-. apply lden_mul_const; assumption. }
+    destruct (lconst fb) eqn:Cb.
+    { injection H as <-. rewrite Cmult_comm, andb_comm, xorb_comm. apply lden_mul_const; assumption. }
+    destruct (lpionly fa && lvaronly fb) eqn:E1.
+    { injection H as <-. apply andb_prop in E1. destruct E1. apply lden_mul_pivar; assumption. }
+    destruct (lpionly fb && lvaronly fa) eqn:E2; [|discriminate].
+    injection H as <-. apply andb_prop in E2. destruct E2.
+    rewrite Cmult_comm, andb_comm, xorb_comm. apply lden_mul_pivar; assumption.
+  - destruct (linof a) as [fa|]; [|discriminate]. destruct (linof b) as [fb|]; [|discriminate].
+    destruct (lconst fb && negb (lim fb) && negb (Qeq_bool (lc fb) 0)) eqn:E; [|discriminate].
+    injection H as <-. apply andb_prop in E. destruct E as [E E3]. apply andb_prop in E. destruct E as [E1 E2].
+    apply negb_true_iff in E2, E3.
+    cbn [cden]. rewrite (IHa _ eq_refl), (IHb _ eq_refl).
+    unfold lden. rewrite lreal_lscale, (lconst_real fb E1), E2. cbn [lscale lim imunit].
+    rewrite Q2R_inv by (apply Qeq_bool_neq; assumption).
+    assert (Hc : Q2R (lc fb) <> 0).
+    { rewrite <- RMicromega.Q2R_0. apply RMicromega.Qeq_false. assumption. }
+    rewrite !RtoC_mult, RtoC_inv by assumption.
+    assert (Hc' : RtoC (Q2R (lc fb)) <> RtoC 0) by (intro A; apply RtoC_inj in A; contradiction).
+    field. exact Hc'.
+  - destruct (linof a) as [fa|]; [|discriminate]. injection H as <-.
+    cbn [cden]. rewrite (IHa _ eq_refl). unfold lden. rewrite lreal_lscale, Q2R_m1. cbn [lscale lim]. csolve.
+Qed.
+End Lin.
